@@ -47,6 +47,8 @@ func opFromLabel(l string) (Op, bool) {
 		}
 	}
 	switch {
+	case strings.HasPrefix(l, "AV:"):
+		return av(l[3:]), true
 	case strings.HasPrefix(l, "V:"):
 		return raw(l[2:]), true
 	case len(l) >= 2 && l[0] == '"' && l[len(l)-1] == '"' && !strings.ContainsAny(l[1:len(l)-1], "\"\\"):
